@@ -1,1 +1,77 @@
-From Dadi Require Import Base.Num.
+(** C02 — every integration path in 1-5 populations solves the documented implicit scheme.
+    Only statements; every proof is [exact <lemma>].  The theorems are about one line of a sweep along any axis
+    (the per-axis kernels of every dimension are instances: Model/NDSweep.v [sweep_line], tied to the C code by
+    the per-run translator obligations and the correspondence), about the Thomas solver, and about the drivers. *)
+From Coq Require Import Reals List Lra Lia.
+From Dadi Require Import Base.Num Base.NumR Model.Tridiag Model.Scheme Model.NDSweep
+  Proofs.TridiagProofs Proofs.SchemeProofs Proofs.Drivers.
+Import ListNotations.
+Local Open Scope R_scope.
+
+(** the Thomas algorithm returns a solution of the tridiagonal system whenever no pivot vanishes ... *)
+Theorem C02_thomas_solves : forall rows : list (@row R),
+  nonzero (all_pivots rows) -> eqs_top rows (thomas rows) /\ length (thomas rows) = length rows.
+Proof. exact thomas_solves. Qed.
+Print Assumptions C02_thomas_solves.
+(** ... and it is the only one *)
+Theorem C02_thomas_unique : forall rows xs, nonzero (all_pivots rows) -> eqs_top rows xs -> xs = thomas rows.
+Proof. exact thomas_unique. Qed.
+
+(** the rows the kernels assemble (tabulated per line, as in C) are the specification rows *)
+Theorem C02_executable_rows_are_spec_rows : forall xs Vf Mf nu c0 c1 dt use_delj, (2 <= length xs)%nat -> forall phi,
+  line_rows xs Vf Mf nu c0 c1 dt use_delj phi = line_rows_spec xs Vf Mf nu c0 c1 dt use_delj phi.
+Proof. exact line_rows_eq_spec. Qed.
+
+(** every row is the conservative fully-implicit flux form: u_i/dt + Delta_i (F_{i+1/2} - F_{i-1/2}) + absorbing term *)
+Theorem C02_rows_are_flux_form : forall xs Vf Mf nu c0 c1 dt use_delj, (2 <= length xs)%nat ->
+  forall (u : nat -> R) i, (i < length xs)%nat ->
+  coef_a xs Vf Mf use_delj i * u (i - 1)%nat + coef_b xs Vf Mf nu c0 c1 dt use_delj i * u i + coef_c xs Vf Mf use_delj i * u (S i) =
+  u i / dt + dfactor xs i * (fluxR xs Vf Mf use_delj u i - fluxL xs Vf Mf use_delj u i) + bcterm xs Mf nu c0 c1 i * u i.
+Proof. exact row_is_flux_form. Qed.
+
+(** one step along a line, for arbitrary grid, density, coefficient functions, dt and delj setting, yields the
+    solution of that system *)
+Theorem C02_step_solves_scheme : forall xs Vf Mf nu c0 c1 dt use_delj, (2 <= length xs)%nat -> forall phi,
+  nonzero (all_pivots (line_rows xs Vf Mf nu c0 c1 dt use_delj phi)) ->
+  let u := line_solve xs Vf Mf nu c0 c1 dt use_delj phi in
+  length u = length xs /\
+  forall i, (i < length xs)%nat ->
+    nthF u i / dt + dfactor xs i * (fluxR xs Vf Mf use_delj (nthF u) i - fluxL xs Vf Mf use_delj (nthF u) i)
+    + bcterm xs Mf nu c0 c1 i * nthF u i = nthF phi i / dt.
+Proof. exact line_solve_solves. Qed.
+Print Assumptions C02_step_solves_scheme.
+
+(** absorbing terms exist only on the all-zero / all-one corner lines *)
+Lemma bcterm_off_corner xs Mf nu i : bcterm xs Mf nu false false i = 0.
+Proof. unfold bcterm, bc0, bc1. cbn [andb]. numR. destruct (Nat.eqb i 0), (Nat.eqb i (length xs - 1)); lra. Qed.
+Theorem C02_absorbing_only_on_corner_lines : forall xs Mf nu i, bcterm xs Mf nu false false i = 0.
+Proof. exact bcterm_off_corner. Qed.
+
+(** the time-dependent driver on parameter functions that return constants is the constant-parameter driver
+    (same time steps, same steps), in any number of populations *)
+Theorem C02_const_equals_timedep : forall fuel shape grids (pops : list (@pop R)) theta0 tf use_delj t T phi,
+  integrate_tdep fuel shape grids (fun _ => pops) (fun _ => theta0) tf use_delj t T phi =
+  integrate_const fuel shape grids pops theta0 tf use_delj t T phi.
+Proof. exact const_equals_timedep. Qed.
+Print Assumptions C02_const_equals_timedep.
+
+(** the precomputed-coefficient kernels see exactly the on-the-fly rows *)
+Theorem C02_precalc_rows_are_onthefly_rows : forall xs Vf Mf nu c0 c1 dt use_delj (phi : list R),
+  length phi = length xs ->
+  precalc_rows (map (coef_a xs Vf Mf use_delj) (seq 0 (length xs)))
+               (map (coef_b0 xs Vf Mf nu c0 c1 use_delj) (seq 0 (length xs)))
+               (map (coef_c xs Vf Mf use_delj) (seq 0 (length xs))) dt phi
+  = map (fun r : @row R => let '(a, b, c, r0) := r in (a, b, c, r0))
+        (map (fun i => (coef_a xs Vf Mf use_delj i, nadd (coef_b0 xs Vf Mf nu c0 c1 use_delj i) (ndiv n1 dt),
+                        coef_c xs Vf Mf use_delj i, ndiv (nthF phi i) dt)) (seq 0 (length xs))).
+Proof. exact precalc_equals_onthefly. Qed.
+
+(** non-vacuity: a concrete 3-point system with non-vanishing pivots, solved by the algorithm *)
+Example C02_nonvacuous :
+  let rows : list (@row R) := [(0, 2, 1, 1); (1, 2, 1, 1); (1, 2, 0, 1)] in
+  nonzero (all_pivots rows) /\ eqs_top rows (thomas rows).
+Proof.
+  assert (Hp : nonzero (all_pivots ([(0, 2, 1, 1); (1, 2, 1, 1); (1, 2, 0, 1)] : list (@row R)))).
+  { cbn. numR. repeat split; lra. }
+  split; [exact Hp|]. exact (proj1 (thomas_solves _ Hp)).
+Qed.
